@@ -19,8 +19,8 @@ from ..strategies import TS_MAX_MS, int_strategy
 ID = "C17"
 RULE = (
     "Hypothesis-generated NewRecordBatch values: 1-8 records; first offset anywhere in int64, other offsets = first + "
-    "int32 delta in any order; whole-millisecond timestamps anywhere in [epoch, 9999-12-31] in any order and several UTC "
-    "offsets; key/value null/empty/small/one >=16 KiB; 0-3 headers with null/empty/non-empty key and value; record and "
+    "int32 delta in any order; whole-millisecond timestamps anywhere in [epoch, 9999-12-31] in any order, in several fixed UTC "
+    "offsets and named DST zones (shared tzinfo objects); key/value null/empty/small/one >=16 KiB; 0-3 headers with null/empty/non-empty key and value; record and "
     "batch attributes, producer id/epoch, base sequence, partition leader epoch over their full ranges incl. limits. "
     "Oracle: kv.refbatch.decode_batch (independent strict v2 decoder with own varints and pure-Python CRC-32C) must "
     "parse the output completely (magic 2, batch_length == len-12, CRC over exactly bytes[21:], minimal varints, record "
@@ -30,7 +30,7 @@ RULE = (
     "key/value/header part; distinct by hash of the case."
 )
 
-_ZONES = [0, 0, 60, -300, 330, 765]
+_ZONES = [0, 0, 60, -300, 330, 765, "Europe/Berlin", "Europe/Berlin", "America/New_York", "Australia/Lord_Howe"]
 
 
 def _blob():
@@ -88,9 +88,18 @@ def build(case):
         dt = EPOCH + datetime.timedelta(milliseconds=r["ts_ms"])
         if r["tz"]:
             try:
-                dt = dt.astimezone(datetime.timezone(datetime.timedelta(minutes=r["tz"])))
-            except OverflowError:
+                if isinstance(r["tz"], str):
+                    # a named zone with DST rules; zoneinfo hands out ONE shared tzinfo object per name, so records of a
+                    # batch on different sides of an offset change share their tzinfo (Python then subtracts wall clocks)
+                    import zoneinfo
+
+                    dt = dt.astimezone(zoneinfo.ZoneInfo(r["tz"]))
+                else:
+                    dt = dt.astimezone(datetime.timezone(datetime.timedelta(minutes=r["tz"])))
+            except Exception:
                 pass
+        if r.get("us"):
+            dt = dt + datetime.timedelta(microseconds=r["us"])
         recs.append(Record(attributes=r["attributes"], timestamp=dt, offset=r["offset"], key=r["key"], value=r["value"],
                            headers=tuple(RecordHeader(key=k, value=v) for k, v in r["headers"])))
     return NewRecordBatch(producer_id=case["producer_id"], producer_epoch=case["producer_epoch"],
@@ -203,8 +212,8 @@ def minimize(case, sig):
             if cur[k] != 0:
                 cands.append({**cur, k: 0})
         for i, r in enumerate(cur["records"]):
-            for k, v in (("key", None), ("value", None), ("headers", []), ("attributes", 0), ("tz", 0), ("offset", 0)):
-                if r[k] != v:
+            for k, v in (("key", None), ("value", None), ("headers", []), ("attributes", 0), ("tz", 0), ("offset", 0), ("us", 0)):
+                if r.get(k, v) != v:
                     cands.append({**cur, "records": cur["records"][:i] + [{**r, k: v}] + cur["records"][i + 1:]})
             if r["ts_ms"] > 0:
                 for v in (0, r["ts_ms"] // 2, r["ts_ms"] - 1, r["ts_ms"] % 1000, r["ts_ms"] - r["ts_ms"] % 1000):
